@@ -12,7 +12,9 @@ import io
 import contextlib
 
 ROUTINES = ["not", "size", "ord", "malloc"]          # register convention (prefix r_)
-STACK_ROUTINES = ["size", "ord", "not"]               # stack convention (prefix s_)
+STACK_ROUTINES = ["size", "ord", "not", "memcpy"]     # stack convention (prefix s_)
+# routines whose label is not their name: name -> (label, prefixes of the labels inside the routine)
+ALIASES = {"memcpy": ("tstdlib_label_local_memcpy_reg", ("tstdlib_label_memcpy_",))}
 INTERNAL_PREFIXES = ("tstdlib_label_", "fsheap_", "malloc_", "substring_")
 DATA_LABELS = ["first_space_for_fsheap", "last_space_for_fsheap"]
 
@@ -89,10 +91,11 @@ def extract(conv="reg", routines=None):
     code_labels = sorted((int(v), k) for k, v in table.items() if isinstance(v, Label))
     out = {}
     for r in (ROUTINES if routines is None else routines):
-        if r not in table or not isinstance(table[r], Label):
+        lab, internal = ALIASES.get(r, (r, INTERNAL_PREFIXES))
+        if lab not in table or not isinstance(table[lab], Label):
             raise Untranslatable("the library has no routine {}".format(r))
-        base = int(table[r])
-        ends = [a for a, k in code_labels if a > base and not k.startswith(INTERNAL_PREFIXES)]
+        base = int(table[lab])
+        ends = [a for a, k in code_labels if a > base and not k.startswith(internal)]
         end = min(ends) if ends else len(prog.code)
         out[r] = (base, prog.code[base:end])
     data = {}
